@@ -47,18 +47,23 @@ Init == /\ mode = "idle"
         /\ cur = NONE /\ written = {} /\ nops = 0 /\ lastErr = "" /\ trailer = NONE
 
 -----------------------------------------------------------------------------
-(* one physical plain object: setXRef (duplicate check, nextRef bump) + bytes *)
-DoPut(st, n, g, v) ==
+(* one physical object: setXRef (duplicate check, nextRef bump) + bytes.     *)
+(* kind "plain": an ordinary value; kind "stream": a *Stream value handed to *)
+(* Put, which Put writes through OpenStream / Close (its body is short, so    *)
+(* the length is direct and nothing else is allocated).                       *)
+DoPutK(st, n, g, v, kind) ==
   IF st.err # "" THEN st
   ELSE IF st.xref[n] # NONE THEN [st EXCEPT !.err = "duplicate"]
   ELSE [st EXCEPT !.xref[n] = AtPos(st.pos, g),
                   !.nextRef = Max(st.nextRef, n + 1),
-                  !.emitted = Append(st.emitted, [pos |-> st.pos, num |-> n, gen |-> g, kind |-> "plain",
+                  !.emitted = Append(st.emitted, [pos |-> st.pos, num |-> n, gen |-> g, kind |-> kind,
                                                   val |-> v, members |-> <<>>, len |-> 0, lenRef |-> 0]),
-                  !.pos = st.pos + HDR + SizeOf(v),
+                  !.pos = st.pos + HDR + (IF kind = "stream" THEN HDR ELSE SizeOf(v)),
                   !.written = st.written \cup {<<n, g, v>>}]
+DoPut(st, n, g, v) == DoPutK(st, n, g, v, "plain")
+\* a queue of <<num, gen, value id, kind>>, written in order (each exactly once)
 RECURSIVE PutAll(_, _)
-PutAll(st, q) == IF q = <<>> THEN st ELSE PutAll(DoPut(st, Head(q)[1], Head(q)[2], Head(q)[3]), Tail(q))
+PutAll(st, q) == IF q = <<>> THEN st ELSE PutAll(DoPutK(st, Head(q)[1], Head(q)[2], Head(q)[3], Head(q)[4]), Tail(q))
 St == [xref |-> xref, nextRef |-> nextRef, pos |-> pos, emitted |-> emitted, written |-> written, err |-> ""]
 Commit(st) == /\ xref' = st.xref /\ nextRef' = st.nextRef /\ pos' = st.pos /\ emitted' = st.emitted
               /\ written' = st.written /\ lastErr' = st.err
@@ -79,9 +84,19 @@ AllocN(n) == /\ Usable /\ Step /\ nextRef + n <= MaxNum + 1
 Put(n, g, v) ==
   /\ Usable /\ Step
   /\ IF mode = "stream"
-     THEN /\ deferred' = Append(deferred, <<n, g, v>>) /\ lastErr' = ""
+     THEN /\ deferred' = Append(deferred, <<n, g, v, "plain">>) /\ lastErr' = ""
           /\ UNCHANGED <<mode, xref, nextRef, pos, emitted, cur, written, trailer>>
      ELSE /\ Commit(DoPut(St, n, g, v)) /\ UNCHANGED <<mode, deferred, cur, trailer>>
+
+\* Put of a *Stream value (short body): written at once through OpenStream and
+\* Close, or queued while a stream is open like any other object; the queue is
+\* replayed exactly once when the open stream is closed
+PutStm(n, g, v) ==
+  /\ Usable /\ Step
+  /\ IF mode = "stream"
+     THEN /\ deferred' = Append(deferred, <<n, g, v, "stream">>) /\ lastErr' = ""
+          /\ UNCHANGED <<mode, xref, nextRef, pos, emitted, cur, written, trailer>>
+     ELSE /\ Commit(DoPutK(St, n, g, v, "stream")) /\ UNCHANGED <<mode, deferred, cur, trailer>>
 
 \* OpenStream: the xref entry is set now, at the current position; lg says
 \* whether the caller supplied /Length ("none" | "right" | "wrong")
@@ -128,7 +143,7 @@ CloseStream ==
           endPos == IF cur.started THEN pos + HDR ELSE pos + HDR + body + HDR
           rec == [pos |-> objPos, num |-> cur.num, gen |-> cur.gen, kind |-> "stream", val |-> cur.val,
                   members |-> <<>>, len |-> body, lenRef |-> cur.lenRef]
-          q == IF cur.lenRef # 0 THEN <<<<cur.lenRef, 0, "len">>>> \o deferred ELSE deferred
+          q == IF cur.lenRef # 0 THEN <<<<cur.lenRef, 0, "len", "plain">>>> \o deferred ELSE deferred
           st0 == [St EXCEPT !.emitted = Append(emitted, rec), !.pos = endPos,
                             !.written = written \cup {<<cur.num, cur.gen, cur.val>>}]
           st1 == PutAll(st0, q)
@@ -141,7 +156,7 @@ CloseStream ==
 WriteCompressed(ns, vs) ==
   /\ mode = "idle" /\ Step
   /\ IF ~OBJSTM
-     THEN LET st1 == PutAll(St, [i \in 1..Len(ns) |-> <<ns[i], 0, vs[i]>>])
+     THEN LET st1 == PutAll(St, [i \in 1..Len(ns) |-> <<ns[i], 0, vs[i], "plain">>])
           IN /\ Commit(st1) /\ mode' = IF st1.err = "" THEN "idle" ELSE "failed"
      ELSE LET s == nextRef
               dup == \E i \in 1..Len(ns) : xref[ns[i]] # NONE \/ ns[i] = s
@@ -186,6 +201,7 @@ WC2(a, b, v) == a # b /\ WriteCompressed(<<a, b>>, <<v, v>>)
 WC1(a, v) == WriteCompressed(<<a>>, <<v>>)
 Next == \/ Alloc \/ AllocN(2)
         \/ \E n \in ProgNums, g \in {0, 1}, v \in Vals : Put(n, g, v)
+        \/ \E n \in ProgNums, g \in {0, 1}, v \in Vals : PutStm(n, g, v)
         \/ \E n \in ProgNums, g \in {0, 1}, v \in Vals, lg \in {"none", "right", "wrong"} : OpenStream(n, g, v, lg)
         \/ OpenWhileOpen
         \/ \E k \in {0, 1, 2} : StreamWrite(k)
